@@ -22,6 +22,8 @@ def run(chk):
     chk.trusted_base = ["python ast parser", "exact polynomial arithmetic", "C19 (the group law is linear modulo m)"]
     e6.run_S1(chk)
     e6.run_S2(chk)
+    chk.rule("S6", "slices of width nsym out of flat block-charge tuples start at a multiple of nsym (leg k owns [k*nsym, (k+1)*nsym))", floor=25)
+    e6.run_S6(chk)
     e3.run_L3(chk)
     e3.run_L1(chk)
     e3.run_L4(chk)
@@ -41,6 +43,7 @@ def run(chk):
 
 
 MUTANTS = [
+    ("unaligned charge slice", "yastn/tensor/_merging.py", "to[n * nsym: (n + 1) * nsym]", "to[n: n + nsym]", "S6"),
     ("conj keeps charge", "yastn/tensor/_single.py", "    newn = a.config.sym.add_charges(a.struct.n, new_signature=-1)\n    news = tuple(-x for x in a.struct.s)\n    struct = a.struct._replace(s=news, n=newn)\n    hfs = tuple(hf.conj() for hf in a.hfs)\n    data",
      "    newn = a.config.sym.add_charges(a.struct.n)\n    news = tuple(-x for x in a.struct.s)\n    struct = a.struct._replace(s=news, n=newn)\n    hfs = tuple(hf.conj() for hf in a.hfs)\n    data", "S2"),
     ("svd swaps charge carrier", "yastn/tensor/linalg.py", "    Un, Vn = (struct.n, n0) if nU else (n0, struct.n)", "    Un, Vn = (n0, struct.n) if nU else (struct.n, n0)", "S2"),
